@@ -146,6 +146,8 @@ void factory_reset(std::map<std::string, CatEntry>* cat, int ntasks) {
   fac.sources_alive = 0;
   fac.overlapping_source_reads = 0;
   fac.task_op.assign(static_cast<size_t>(std::max(ntasks, 0)), "");
+  fac.wildcard_prefix.clear();
+  fac.wildcard_entry = CatEntry();
 }
 
 namespace {
@@ -248,6 +250,10 @@ std::unique_ptr<cctz::ZoneInfoSource> SimFactory(
         src.reset(new SimSource(&e, idx, eio_active));
       }
     }
+  } else if (!fac.wildcard_prefix.empty() && name.compare(0, fac.wildcard_prefix.size(), fac.wildcard_prefix) == 0 &&
+             fac.wildcard_entry.kind == CatEntry::BYTES) {
+    fac.wildcard_entry.sources_made++;
+    src.reset(new SimSource(&fac.wildcard_entry, idx, false));
   } else {
     probe("factory_unknown_name");
   }
@@ -283,7 +289,9 @@ void fs_reset() {
 const FsNode* fs_resolve(const std::string& path, int* err) {
   *err = 0;
   if (path.empty()) { *err = ENOENT; return nullptr; }
-  // Normalise: collapse repeated slashes and "." components; remember a trailing slash.
+  // Normalise: collapse repeated slashes and "." components, resolve ".." against directories that
+  // exist; remember whether the path demands a directory (trailing "/" or "/.").
+  if (path.size() >= 4096) { *err = ENAMETOOLONG; return nullptr; }
   std::string p;
   bool trailing = path.size() > 1 && path.back() == '/';
   size_t i = 0;
@@ -294,7 +302,23 @@ const FsNode* fs_resolve(const std::string& path, int* err) {
     if (e2 == std::string::npos) e2 = path.size();
     std::string comp = path.substr(i, e2 - i);
     i = e2;
-    if (comp.empty() || comp == ".") continue;
+    if (comp.empty()) continue;
+    if (comp.size() > 255) { *err = ENAMETOOLONG; return nullptr; }
+    if (comp == "." || comp == "..") {
+      // what precedes must be an existing directory
+      if (!p.empty() && p != "/") {
+        auto dit = fs.nodes.find(p);
+        if (dit == fs.nodes.end()) { *err = ENOENT; return nullptr; }
+        if (dit->second.kind == FsNode::NOPERM) { *err = EACCES; return nullptr; }
+        if (dit->second.kind != FsNode::DIR) { *err = ENOTDIR; return nullptr; }
+      }
+      if (i >= path.size()) trailing = true;
+      if (comp == ".." && !p.empty() && p != "/") {
+        size_t sl = p.rfind('/');
+        p = (sl == std::string::npos) ? std::string() : (sl == 0 ? std::string("/") : p.substr(0, sl));
+      }
+      continue;
+    }
     if (!p.empty() && p.back() != '/') p += "/";
     p += comp;
   }
